@@ -97,10 +97,26 @@ def table_cases(tier, seed):
 TIMES = [TROUGH - 1, TROUGH, TROUGH + 1, 500, NS_TABLE - (LENGTH - TROUGH) - 1, NS_TABLE - (LENGTH - TROUGH), NS_TABLE - (LENGTH - TROUGH) + 1]
 
 
+_TABLE_REC = {}
+
+
+def _table_public(ss, sc, sch, max_wf, seed):
+    """the selection table through the public entry point (used when the private helper is gone): a 1000-sample, 16-site recording, one chunk"""
+    d = os.path.join(synth.proc_scratch(), "c13_table")
+    if "fbin" not in _TABLE_REC:
+        os.makedirs(d, exist_ok=True)
+        _TABLE_REC["fbin"] = _recording(d, "NP1", NS_TABLE, nsites=16)[0]
+    out = os.path.join(d, "out")
+    shutil.rmtree(out, ignore_errors=True)
+    os.makedirs(out)
+    wx.extract_wfs_cbin(Path(_TABLE_REC["fbin"]), Path(out), ss, sc, sch, max_wf=max_wf, trough_offset=TROUGH, spike_length_samples=LENGTH,
+                        chunksize_samples=NS_TABLE, n_jobs=1, preprocess_steps=[], seed=seed)
+    return pd.read_parquet(os.path.join(out, "waveforms.table.pqt")), None
+
+
 def table_check(case):
     a = case[0]
-    if not hasattr(wx, "_make_wfs_table"):
-        return Res([], o="skipped", nt=False, tr=0)
+    private = hasattr(wx, "_make_wfs_table")
     seen = {}
     ntr = 0
     first = [(a // 4 ** k) % 4 for k in range(3)]
@@ -123,11 +139,18 @@ def table_check(case):
             continue            # no extractable spike at all: nothing to select (not covered by the property)
         for max_wf in (1, 2, 3, 4):
             for sd, dt in ((0, np.int64), (1, np.uint64), (5, np.int32), (2, np.uint32)):     # spike times as sorters store them (Kilosort: uint64)
+                if not private and (sd not in (0, 1) or max_wf == 3):
+                    continue            # through the public entry point (one extraction per table): a reduced grid
                 try:
-                    tab, units = wx._make_wfs_table(_FakeSr(), ss.astype(dt), sc, sch, max_wf=max_wf, trough_offset=TROUGH, spike_length_samples=LENGTH, seed=sd)
+                    if private:
+                        try:
+                            tab, units = wx._make_wfs_table(_FakeSr(), ss.astype(dt), sc, sch, max_wf=max_wf, trough_offset=TROUGH, spike_length_samples=LENGTH, seed=sd)
+                        except TypeError:
+                            private = False          # the private helper changed its signature: use the public entry point from here on
+                            tab, units = _table_public(ss.astype(dt), sc, sch, max_wf, sd)
+                    else:
+                        tab, units = _table_public(ss.astype(dt), sc, sch, max_wf, sd)
                     ntr += 1
-                except TypeError:
-                    return Res([], o="skipped", nt=False, tr=0)         # the private helper changed its signature: covered by the file-level clause only
                 except Exception as e:
                     seen.setdefault("table:exc:%s" % type(e).__name__, "spikes %r max_wf=%d: %s: %s" % (spikes, max_wf, type(e).__name__, e))
                     continue
@@ -144,7 +167,7 @@ def table_check(case):
                 wi = np.sort(tab["waveform_index"].to_numpy())
                 if not np.array_equal(wi, np.arange(len(tab))):
                     seen.setdefault("table:waveform_index", "waveform_index %r is not a permutation of 0..n-1" % (tab["waveform_index"].tolist(),))
-    return Res(list(seen.items()), o="t", tr=ntr)
+    return Res(list(seen.items()), o="t" if private else "t:public-entry-point", tr=ntr)
 
 
 # ------------------------------------------------------------------ file level with controlled task order
@@ -170,19 +193,22 @@ class _Proxy(object):
 
 
 class _Seams(object):
-    """rebinds Parallel/delayed/open_memmap of ibldsp.waveform_extraction for one execution"""
+    """
+    replaces joblib's Parallel / delayed and numpy's open_memmap for one execution, wherever the library refers to them: every attribute of
+    ibldsp.waveform_extraction that IS one of these objects, and the attributes of the joblib / numpy.lib.format modules themselves (a call
+    written `joblib.Parallel(...)` looks the name up there).  If the fan-out does not go through joblib at all, `ntasks` stays None and
+    the caller falls back to a black-box comparison (no control over the task order).
+    """
 
     def __init__(self, order=None):
         self.order = order
         self.log = []
         self.ntasks = None
-        self.saved = {}
+        self.saved = []
 
     def __enter__(self):
-        for name in ("Parallel", "delayed", "open_memmap"):
-            if not hasattr(wx, name):
-                raise HarnessError("seam ibldsp.waveform_extraction.%s is gone" % name)
-            self.saved[name] = getattr(wx, name)
+        import joblib
+        import numpy.lib.format as npformat
         seams = self
 
         def delayed(fn):
@@ -192,27 +218,44 @@ class _Seams(object):
             def __init__(self, *a, **k):
                 pass
 
+            def __enter__(self):
+                return self
+
+            def __exit__(self, *a):
+                return False
+
             def __call__(self, tasks):
                 tasks = list(tasks)
-                seams.ntasks = len(tasks)
+                seams.ntasks = (seams.ntasks or 0) + len(tasks)
                 order = list(range(len(tasks))) if seams.order is None else seams.order
                 if sorted(order) != list(range(len(tasks))):
                     raise HarnessError("schedule %r does not fit %d tasks" % (order, len(tasks)))
                 return [tasks[i][0](*tasks[i][1], **tasks[i][2]) for i in order]
 
-        real_open = self.saved["open_memmap"]
+        real_open = npformat.open_memmap
 
         def open_memmap(fn, mode="r+", **kw):
             mm = real_open(fn, mode=mode, **kw)
             if mode == "w+":
                 return _Proxy(mm, seams.log)
             return mm
-        wx.Parallel, wx.delayed, wx.open_memmap = Parallel, delayed, open_memmap
+        targets = {id(joblib.Parallel): Parallel, id(joblib.delayed): delayed, id(real_open): open_memmap}
+        holders = [wx, joblib, npformat]
+        try:
+            import joblib.parallel as jp
+            holders.append(jp)
+        except Exception:
+            pass
+        for mod in holders:
+            for name, val in list(vars(mod).items()):
+                if id(val) in targets:
+                    self.saved.append((mod, name, val))
+                    setattr(mod, name, targets[id(val)])
         return self
 
     def __exit__(self, *a):
-        for name, val in self.saved.items():
-            setattr(wx, name, val)
+        for mod, name, val in self.saved:
+            setattr(mod, name, val)
 
 
 def _recording(d, fam, ns, nsites=40, mult=31):
@@ -257,9 +300,7 @@ def _run_extract(fbin, outdir, spikes, max_wf, chunk, order, seed):
     with _Seams(order) as sm:
         wx.extract_wfs_cbin(Path(fbin), Path(outdir), spikes[0], spikes[1], spikes[2], max_wf=max_wf, trough_offset=TROUGH,
                             spike_length_samples=LENGTH, chunksize_samples=chunk, n_jobs=3, preprocess_steps=[], seed=seed)
-    if sm.ntasks is None or sm.ntasks < 1:
-        raise HarnessError("the controlled Parallel did not receive any task: the fan-out seam was bypassed")
-    return sm
+    return sm          # sm.ntasks is None when the fan-out did not go through joblib: the caller then compares results only (black box)
 
 
 def _verify_output(outdir, cal, xy, spikes, max_wf, ns, seen, ctx):
@@ -346,13 +387,16 @@ def file_check(case):
     seen = {}
     ntr = 0
     ref_files = None
+    mode = "controlled"
     for chunk in chunks:
         # the number of chunk tasks is taken from a first, natural-order execution (not recomputed here)
         out = os.path.join(d, "out")
         try:
             sm0 = _run_extract(fbin, out, spikes, max_wf, chunk, None, seed=3)
             ntr += 1
-            nchunks = sm0.ntasks
+            nchunks = sm0.ntasks if sm0.ntasks else 1          # not dispatched through joblib: one natural-order execution, results compared only
+            if not sm0.ntasks:
+                mode = "black-box (fan-out not through joblib)"
         except HarnessError:
             raise
         except Exception as e:
@@ -379,7 +423,7 @@ def file_check(case):
             traces = np.load(os.path.join(out, "waveforms.traces.npy"))
             # write log: every row written exactly once, by disjoint tasks
             allrows = [r for w in sm.log for r in w]
-            if sorted(allrows) != list(range(traces.shape[0])):
+            if sm.log and sorted(allrows) != list(range(traces.shape[0])):
                 dup = sorted({r for r in allrows if allrows.count(r) > 1})[:5]
                 missing = sorted(set(range(traces.shape[0])) - set(allrows))[:5]
                 seen.setdefault("file:write-once", "%s: rows written twice %r, never written %r" % (ctx, dup, missing))
@@ -413,7 +457,7 @@ def file_check(case):
         raise
     except Exception as e:
         seen.setdefault("file:exc:%s" % type(e).__name__, "%s: %s: %s" % (ctx, type(e).__name__, e))
-    return Res(list(seen.items()), o=(fam, max_wf), tr=ntr)
+    return Res(list(seen.items()), o=(fam, max_wf, mode), tr=ntr)
 
 
 def _loader_check(out, seen, ctx):
